@@ -697,4 +697,87 @@ example : (firHits 8 4).any (fun h => h.arr == .x && h.idx == -4) = true ∧ (fi
     (pdownHits 16 true).any (fun h => h.arr == .x1 && h.idx == 15) = true ∧ (pdownHits 16 true).any (fun h => h.arr == .xlp && h.idx == 7) = true := by
   decide
 
+/-! ## Audit follow-ups: duration at the public entry points, tight write extents -/
+
+/-- **decodeApi_duration.**  The duration clause for the public entry points `opus_decode` / `opus_decode24` /
+    `opus_decode_float`: a packet with valid framing (`parseImpl false bs = .ok p`), no FEC, and a buffer with room for
+    `count · samples_per_frame` samples per channel ⇒ that is what the call returns, through every entry point — the 16- and
+    24-bit wrappers clamp `frame_size` to `opus_decoder_get_nb_samples` (:852-859), which is that same number — and what
+    `OPUS_GET_LAST_PACKET_DURATION` reports afterwards. -/
+theorem decodeApi_duration (o : Oracle) (ho : OracleOk o) (st : DecState) (hinv : DecInv st) (fmt : Fmt)
+    (bs : Bytes) (hb : BytesOk bs) (hne : bs ≠ []) (frame_size : Int) (p : Parsed) (hparse : parseImpl false bs = .ok p)
+    (hfit : (p.count : Int) * (samplesPerFrame (bs.headD 0) st.Fs.toNat : Int) ≤ frame_size) :
+    (decodeApi o fmt (some bs) bs.length frame_size 0 { st := st, k := 0, log := [] }).ret =
+        .ret ((p.count : Int) * (samplesPerFrame (bs.headD 0) st.Fs.toNat : Int)) ∧
+    (decodeApi o fmt (some bs) bs.length frame_size 0 { st := st, k := 0, log := [] }).run.st.last_packet_duration =
+        (p.count : Int) * (samplesPerFrame (bs.headD 0) st.Fs.toNat : Int) := by
+  have hch := hinv.ch
+  -- the native call with any buffer of at least the packet duration
+  have native : ∀ (fsz : Int) (sc : Bool), (p.count : Int) * (samplesPerFrame (bs.headD 0) st.Fs.toNat : Int) ≤ fsz →
+      (decodeNative o (some bs) bs.length { buf := .pcm, off := 0, cap := fsz * st.channels } fsz 0 false sc
+          { st := st, k := 0, log := [] }).ret = .ret ((p.count : Int) * (samplesPerFrame (bs.headD 0) st.Fs.toNat : Int)) ∧
+      (decodeNative o (some bs) bs.length { buf := .pcm, off := 0, cap := fsz * st.channels } fsz 0 false sc
+          { st := st, k := 0, log := [] }).run.st.last_packet_duration =
+        (p.count : Int) * (samplesPerFrame (bs.headD 0) st.Fs.toNat : Int) := by
+    intro fsz sc hle
+    have h := decodeNative_duration o ho { st := st, k := 0, log := [] } hinv rfl bs hb hne
+      { buf := .pcm, off := 0, cap := fsz * st.channels } fsz false sc p hparse hle rfl (by simp)
+    exact ⟨h.1, h.2.1⟩
+  have hpos := (decodeNative_duration o ho { st := st, k := 0, log := [] } hinv rfl bs hb hne
+      { buf := .pcm, off := 0, cap := frame_size * st.channels } frame_size false false p hparse hfit rfl (by simp)).2.2
+  simp only at hpos
+  have hlen : (0 : Int) < (bs.length : Int) := by
+    cases bs with
+    | nil => exact absurd rfl hne
+    | cons a t => simp only [List.length_cons]; omega
+  -- opus_decoder_get_nb_samples of the packet is the same number
+  have hnb : nbSamples (bs.take ((bs.length : Int)).toNat) st.Fs = (p.count : Int) * (samplesPerFrame (bs.headD 0) st.Fs.toNat : Int) := by
+    have hpo : p.packetOffset = bs.length := by
+      obtain ⟨pk, rest, _, hbs, hr, hview⟩ := Opus.FramingProofs.parse_sound false bs hb p hparse
+      have := hr rfl; subst this; subst hview
+      rw [hbs]; simp [Opus.FramingSpec.view]
+    have h1 := sub_nbSamples false bs hb p hparse st.Fs.toNat (rate_of_fsOk hinv.fs)
+    rw [hpo] at h1
+    unfold nbSamples
+    simp only [Int.toNat_natCast, h1]
+    exact Int.natCast_mul _ _
+  unfold decodeApi
+  rw [if_neg (by omega)]
+  cases fmt with
+  | f32 => exact native frame_size false hfit
+  | i16 =>
+    simp only [Option.isSome_some, true_and, Option.getD_some, hnb]
+    rw [if_pos ⟨by omega, trivial⟩, if_pos hpos]
+    simp only [if_neg (show ¬ ¬ (st.channels = 1 ∨ st.channels = 2) from fun h => h hch)]
+    exact native _ _ (by omega)
+  | i24 =>
+    simp only [Option.isSome_some, true_and, Option.getD_some, hnb]
+    rw [if_pos ⟨by omega, trivial⟩, if_pos hpos]
+    simp only [if_neg (show ¬ ¬ (st.channels = 1 ∨ st.channels = 2) from fun h => h hch)]
+    exact native _ _ (by omega)
+
+example : parseImpl false [120, 1, 2, 3] = .ok ⟨120, 1, [3], 1, 0, 4⟩ ∧ ((1 : Nat) : Int) * (samplesPerFrame 120 48000 : Int) ≤ 960 := by
+  decide
+
+/-- **decodeNative_writes_tight.**  Every entry point hands `opus_decode_native` a buffer pointer with offset 0 and
+    capacity exactly `frame_size·channels` (`decodeApi`, `stepCall`, `msStream`: the caller's buffer, the stack buffer
+    `out`, half of the multistream `buf`).  For such a pointer every logged access that lies in that buffer satisfies
+    `pcm.off ≤ p.off ∧ p.off + n ≤ pcm.off + frame_size·channels` — the bounds of `decodeNative_writes` are tight.  (For a
+    pointer with `pcm.off > 0` or slack in `pcm.cap` only `0 ≤ p.off ∧ p.off + n ≤ pcm.cap` is proved: the skeleton's
+    invariants do not track the distance to `pcm.off`; no entry point makes such a call.) -/
+theorem decodeNative_writes_tight (o : Oracle) (ho : OracleOk o) (r : Run) (hinv : DecInv r.st) (hlog : r.log = [])
+    (data : Option Bytes) (hb : ∀ bs, data = some bs → BytesOk bs) (len : Int) (pcm : Ptr) (frame_size fec : Int)
+    (sd sc : Bool) (hbuf : pcm.buf = .pcm) (hoff : pcm.off = 0) (hcap : pcm.cap = frame_size * r.st.channels)
+    (hfs : 0 ≤ frame_size) :
+    ∀ e ∈ (decodeNative o data len pcm frame_size fec sd sc r).run.log, ∀ p n, e.extent? = some (p, n) → p.buf = .pcm →
+      pcm.off ≤ p.off ∧ p.off + n ≤ pcm.off + frame_size * r.st.channels := by
+  intro e he p n hx hp
+  have hch := hinv.ch
+  have h := decodeNative_writes o ho r hinv hlog data hb len pcm frame_size fec sd sc hbuf
+    (by rw [hoff, hcap]; omega) e he p n hx
+  obtain ⟨⟨h1, h2, h3⟩, hc⟩ := h
+  have hpc : p.cap = pcm.cap := by unfold PtrCapOk at hc; rw [hp] at hc; exact hc
+  rw [hoff]; rw [hpc, hcap] at h3
+  exact ⟨h1, by omega⟩
+
 end OpusProps.C01
